@@ -64,10 +64,124 @@ def gen_cases(rng, tier):
         cases.append({"kind": "fault", "mech": mech, "calls": calls, "pick": rng.randint(0, 10 ** 6),
                       "with_fault": (rng.random() < 0.85) and not bad_source, "base_exception": False, "exc_kind": rng.choice(ec.FAULT_KINDS),
                       "foreach": rng.random() < 0.4})
+    cases += _spelling_cases(rng, max(12, n // 12))
+    cases += _pred_cases(rng, max(20, n // 8))
     return cases
 
 
+# ---- explode() with a predicate that raises at a given invocation (outside the Coq model: predicates are pure there) ----
+
+def _pred_cases(rng, n):
+    out = []
+    for _ in range(n):
+        h = gens.hist(rng, max_faces=3, style=rng.choice(["unit", "pos", "small"]), frac_p=0.0, min_faces=2)
+        faces = [o for o, _ in h]
+        sub = [f for f in faces if rng.random() < 0.6] or faces[-1:]
+        out.append({"kind": "explode_pred", "h": h, "sub": sub, "lim": rng.choice([0, 0, 1, 2, 2, 3]),
+                    "fault": rng.choice([None, 0, 1, 2, 3, 4, 6, 9]), "fault_kind": rng.choice(["recursion", "recursion", "marker", "stopiteration"])})
+    return out
+
+
+class _PredMarker(Exception):
+    pass
+
+
+def _pred_impl(case):
+    from dyce import H
+    from dyce.evaluation import explode
+    from common import hist_items
+    h = H(gens.py_hist_dict(case["h"]))
+    sub = [gens.py_outcome(o) for o in case["sub"]]
+    n = {"calls": 0}
+    raised = []
+
+    def pred(r):
+        i = n["calls"]
+        n["calls"] += 1
+        if case["fault"] is not None and i == case["fault"]:
+            e = {"recursion": RecursionError("injected"), "marker": _PredMarker("injected"), "stopiteration": StopIteration("injected")}[case["fault_kind"]]
+            raised.append(e)
+            raise e
+        return r.outcome in sub
+    try:
+        res = explode(h, pred, limit=case["lim"])
+        return {"ok": hist_items(res), "calls": n["calls"]}
+    except BaseException as e:  # noqa
+        return {"exc": type(e).__name__, "same_object": bool(raised) and e is raised[-1], "calls": n["calls"]}
+
+
+def _pred_oracle(case):
+    items = [(Fraction(*o), c) for o, c in case["h"]]
+    sub = {Fraction(*o) for o in case["sub"]}
+    t = sum(c for _, c in items)
+    sent = {o: Fraction(c, t) for o, c in items if c} if t else {}
+    n = {"calls": 0}
+
+    class Rec(Exception):
+        pass
+
+    class Mark(Exception):
+        pass
+
+    def ev(depth):
+        if depth >= case["lim"]:
+            return dict(sent)
+        mix, wsum = {}, Fraction(0)
+        for o, c in items:
+            i = n["calls"]
+            n["calls"] += 1
+            try:
+                if case["fault"] is not None and i == case["fault"]:
+                    raise Rec() if case["fault_kind"] == "recursion" else Mark()
+                d = {x + o: p for x, p in ev(depth + 1).items()} if o in sub else {o: Fraction(1)}
+            except Rec:
+                d = dict(sent)            # only this branch becomes the sentinel
+            if not d or not t:
+                continue
+            p = Fraction(c, t)
+            wsum += p
+            for x, px in d.items():
+                mix[x] = mix.get(x, 0) + p * px
+        return {x: px / wsum for x, px in mix.items() if px} if wsum else {}
+    try:
+        d = ev(0)
+        return {"dist": ec.dist_json(d), "calls": n["calls"]}
+    except Mark:
+        return {"exc": "StopIteration" if case["fault_kind"] == "stopiteration" else "_PredMarker", "calls": n["calls"]}
+
+
+_C08_KINDS = ("explode", "substitute", "h_explode")
+
+
+def _c08():
+    from props import C08
+    return C08
+
+
+def _spelling_cases(rng, n):
+    """the deprecated spellings H.explode / H.substitute and their pool versions P.explode / P.substitute with limits
+    exactly on the boundary (0, False, 1) and with the illegal fractional 0: decided by the C08 machinery"""
+    out = []
+    for _ in range(n):
+        h = gens.hist(rng, max_faces=3, style=rng.choice(["unit", "pos"]), frac_p=0.0, min_faces=2)
+        md = rng.choice([["int", 0], ["int", 0], ["bool", False], ["int", 1], ["int", 2], None])
+        pl = None
+        if md is None:
+            pl = rng.choice([["frac", 0, 1], ["float", 0, 1], ["frac", 1, 4]])
+        via_pool = rng.random() < 0.7
+        if rng.random() < 0.5:
+            out.append({"kind": "h_explode", "h": h, "md": md, "pl": pl, "via_pool": via_pool})
+        else:
+            out.append({"kind": "substitute", "h": h, "table": [[h[-1][0], ["hist", [list(x) for x in h]]]],
+                        "coalesce": rng.choice(["replace", "add"]), "md": md, "pl": pl, "via_pool": via_pool})
+    return [c for c in out if _c08()._safe(c)]
+
+
 def impl_run(case):
+    if case.get("kind") == "explode_pred":
+        return _pred_impl(case)
+    if case.get("kind") in _C08_KINDS:
+        return _c08().impl_run(case)
     from dyce import H
     from dyce.evaluation import explode
     calls = [tuple(c) for c in case["calls"]]
@@ -84,6 +198,10 @@ def impl_run(case):
 
 
 def coq_check(case, r):
+    if case.get("kind") == "explode_pred":
+        return None
+    if case.get("kind") in _C08_KINDS:
+        return _c08().coq_check(case, r)
     if "answers" not in r:
         return "MISMATCH"
     exps = [_cans(a) for a in r["answers"]]
@@ -98,6 +216,10 @@ def coq_show(case):
 
 
 def oracle(case):
+    if case.get("kind") == "explode_pred":
+        return _pred_oracle(case)
+    if case.get("kind") in _C08_KINDS:
+        return _c08().oracle(case)
     if C07._frac_limits(case) and C07._split_rolls_possible(case):
         return None
     o = ec.oracle_calls(case["mech"], [tuple(c) for c in case["calls"]])
@@ -107,6 +229,14 @@ def oracle(case):
 
 
 def agree(case, r, o):
+    if case.get("kind") == "explode_pred":
+        if r.get("calls") != o["calls"]:
+            return False          # the predicate is consulted exactly where the re-roll process looks at a face
+        if "exc" in o:
+            return r.get("exc") == o["exc"] and r.get("same_object") is True
+        return "ok" in r and ec.dist_of_items(r["ok"]) == {Fraction(*k): Fraction(*v) for k, v in o["dist"]}
+    if case.get("kind") in _C08_KINDS:
+        return _c08().agree(case, r, o)
     if "answers" not in r:
         return False
     oo = [{"dist": {Fraction(*k): Fraction(*v) for k, v in a["dist"]}} if "dist" in a else a for a in o["answers"]]
@@ -127,10 +257,16 @@ def agree(case, r, o):
 
 
 def nontrivial(case, r):
+    if case.get("kind") in _C08_KINDS or case.get("kind") == "explode_pred":
+        return True
     return r.get("fault") is not None and r.get("ninv_first", 0) >= 2
 
 
 def case_class(case, r):
+    if case.get("kind") == "explode_pred":
+        return "explode_pred:" + str(case["fault_kind"] if case["fault"] is not None else "nofault") + (":" + r["exc"] if "exc" in r else "")
+    if case.get("kind") in _C08_KINDS:
+        return "spelling:" + case["kind"] + (":pool" if case.get("via_pool") else "") + (":" + r["exc"] if "exc" in r else "")
     f = r.get("fault")
     return "no-fault" if f is None else ("fault@0" if f == 0 else "fault@last" if f == r["ninv_first"] - 1 else "fault@mid")
 
